@@ -37,12 +37,34 @@ AFTER_SEED = {
  "C20": ["round 1: BOOL-TOTAL, COMBINE-FORMULA; round 2: C20_D reported by NO-OVERFLOW-BEFORE-NARROW (existed); COMBINE-FORMULA evaluated `/` exactly and missed a truncating integer "
          "division (C20_C), closed"],
 }
+# third round (after the audit of all rule files): E and F of every property
+ROUND3 = {
+ "C01": ["round 3: both reported by rules that existed (DESCENT-SEARCH on the const upper_bound overload, UNDERFLOW-LEGAL's separator-slot clause in the iterator erase)"],
+ "C02": ["round 3: both reported by rules that existed (NODE-CAPACITY, ROOT-COLLAPSE)"],
+ "C03": ["round 3: C03_E reported by HOME-BEFORE-INPLACE (existed); C03_F (final-bucket test of the 16-bit loop ordered after the insertion-sort branch) was MISSED; DEPTH-ADVANCE now searches, on every understood path that hands a bucket of two or more strings to a sorter, for a bucket index that is a multiple of 256 and satisfies the path"],
+ "C04": ["round 3: C04_F reported by USE-AFTER-RELEASE (existed); C04_E (a finished range of a flipped shadow pointer reported done without copy_back in the work-sharing twin) was MISSED: COPY-BACK only looked at insertion_sort_cache; it is now anchored at every donesize() report"],
+ "C05": ["round 3: both reported by rules that existed (MERGE2-TABLE, REPLAY-TABLE)"],
+ "C06": ["round 3: C06_F (same slip as C07_E) was MISSED, see C08; C06_E (destroy loop bounded by the merged instead of the constructed count) was 'cannot decide' and is now reported by TEMP-DESTROY's whole-body evaluation in fully specified worlds"],
+ "C07": ["round 3: C07_F reported by STABLE-PROPAGATE (existed); C07_E (tie-break of the left-maximum scan in multisequence_partition) was MISSED by EDGE-TIEBREAK, which left ties free everywhere; found independently by two agents (C06_F); the scan whose winner is recorded together with its sequence index must keep the lexicographic maximum"],
+ "C08": ["round 3: both reported by rules that existed (LEXI-TABLE, SIGN-TEST-SIGNED)"],
+ "C09": ["round 3: both reported by INIT-TABLE (existed)"],
+ "C10": ["round 3: both reported by rules that existed (NOTIFY-KIND; EXCEPTION-BALANCED and JOB-LIFETIME)"],
+ "C11": ["round 3: both reported by rules that existed (NOTIFY-KIND, SPIN-ORDER)"],
+ "C12": ["round 3: both reported by rules that existed (RC-ATOMIC-RMW, RC-CONSERVE)"],
+ "C13": ["round 3: both reported by rules that existed (HANDLE-GROW, CLEAR-COMPLETE); afterwards RANK-TABLE was revived as an evaluation and BUCKET-INDEX, RADIX-VALUE, RADIX-ORDER, CLEAR-STATE were added for the value-level clauses"],
+ "C14": ["round 3: both reported by rules that existed (FINAL-THRESHOLDS / PROCESS-CONSERVE, SIMD-ALIGNMENT)"],
+ "C15": ["round 3: both reported by rules that existed (NET-SORTS / DISPATCH-SIZE, CSWAP-TABLE)"],
+ "C16": ["round 3: C16_E reported by CURSOR-RESET (existed); C16_F (copy constructor reading the source's storage at an unmasked cursor) was 'cannot decide' and is now reported by COPY-ELEMENTS' concrete evaluation over wrapped sources"],
+ "C17": ["round 3: C17_F reported by SPLAY-ALLOC-PAIR (existed); C17_E (key for the coupled index erase read from a node that was moved from) was MISSED; LRU-COUPLED now forbids reading a key or iterator argument from an object moved from earlier on the path"],
+ "C18": ["round 3: both reported by rules that existed (GUARD-TABLES; BYTE-ORDER-UNSIGNED and REL-FROM-COMPARE); afterwards COMPARE-VALUE, OPERATOR-VALUE, PREFIX-SUFFIX-VALUE, ELEMENT-ACCESS-VALUE, TO-STRING-VALUE were added"],
+ "C19": ["round 3: C19_E reported by QUOTE-AGREE (existed); C19_F (trim with a drop set that contains NUL / is not terminated) was MISSED: the trim family was outside the claimed clauses; TRIM-SEMANTICS and ten more helper rules now evaluate all 66 overloads of the pure helpers"],
+ "C20": ["round 3: both reported by rules that existed (COMBINE-FORMULA, BOOL-TOTAL); afterwards FAMILY-VALUE, TEMPLATE-VALUE, ROTATE-FRONT, ABS-DIFF-VALUE, SGN-VALUE, DIV-CEIL-VALUE, ROUND-UP-VALUE were added"],
+}
 DROPPED = {
  "C03": ["INSSORT-TWINS compared the general iteration of the LCP insertion sort with its peeled last iteration as text (alpha-renamed): it fired on a behaviour-preserving restructuring of one of the two (§10) and was dropped; no semantic replacement is in reach"],
  "C08": ["TWIN-AGREE compared the decisions of multisequence_partition with those of multisequence_selection as text: it fired on one-sided behaviour-preserving edits (§10). It was replaced by rules that state the requirement directly and caught every seed it used to catch: GUARD-EXACT (a guarding edge is exactly `the element exists`, as a canonical linear inequality) and LEFT-BORDER-BOUND"],
  "C20": ["PLUS-TWINS compared operator+ with operator+= ; replaced by PLUS-COMBINES, which evaluates each of them on sample states and observes the helper calls"],
  "C07": ["LAST-SLAB-END: after the ADVANCE-EXACT fix the last slab's end is no longer a necessary condition; seed C07_A became behaviour-preserving (its demo passes) and is kept as the silent variant selftest/C07/silent_last_slab_to_end.patch"],
- "C13": ["RANK-TABLE: the library's own static_asserts already enforce it"],
  "C17": ["LRU-SIBLINGS: fired on a behaviour-preserving variant (Set and Map may legitimately differ in a fast path)"],
 }
 FALSE_ALARMS = {
@@ -70,7 +92,7 @@ def seeds_of(pid):
     return out
 
 print("## 5. Per-property checks as built\n")
-print("Every property is claimed at level *other* (a statically decided set of necessary conditions), except C15 (*proof*). "
+print("Every property is claimed at level *other* (a statically decided set of necessary conditions; the [eval] rules hold on the finite domain they name), except C15 (*proof*). "
       "For each property: the technique, what is decided, what is not, the rule instances on the current tree (quick tier), "
       "and the seeded changes with the rule that reports each. The rule ids are the ones printed by `./check`.\n")
 for p in props:
@@ -80,9 +102,7 @@ for p in props:
     cov = ev["coverage"]
     print("### %s — %s\n" % (pid, p["title"]))
     print("*Level:* %s. *Technique:* %s.\n" % (c["level"], c["technique"]))
-    print("*Decided.* %s\n" % cov.get("explanation", c["text"]))
-    if cov.get("explanation") and c["text"] not in cov["explanation"]:
-        print("*Claim in MANIFEST.* %s\n" % c["text"])
+    print("*Decided* ([struct] = decided over the code's structure for all values, [eval] = decided by interpreting the AST on the finite domain named, §4.1). %s\n" % c["text"])
     print("*Not decided / trusted.* %s\n" % c["note"])
     ri = cov.get("rule_instances", {})
     print("*Rule instances (quick tier, current tree):* %s — %d functions in %d translation unit(s), %.1f s.\n"
@@ -91,7 +111,7 @@ for p in props:
     if sd:
         print("*Seeded changes:* " + "; ".join("%s → %s" % (m["id"], ", ".join(sorted(set(r["rule"] for r in m["check_result"]["reported_by"]))) or "NOT REPORTED") for m in sd) + ".\n")
     if pid in AFTER_SEED:
-        print("*Seeds and rules, honestly:* " + "; ".join(AFTER_SEED[pid]) + ".\n")
+        print("*Seeds and rules, honestly:* " + "; ".join(AFTER_SEED[pid] + ROUND3.get(pid, [])) + ".\n")
     if pid in DROPPED:
         print("*Dropped:* " + "; ".join(DROPPED[pid]) + ".\n")
     if pid in FALSE_ALARMS:
